@@ -59,6 +59,9 @@ func (s *verifPipeState) step(out *OutputCollector) error {
 		s.emitted++
 		b := verifNewBatch(verifDataSchema, 1, 100*s.turn+s.emitted, nil, nil)
 		b.size = 16
+		if verifPipeBatchSize != nil {
+			b.size = verifPipeBatchSize(b.tag)
+		}
 		return b
 	}
 	switch k {
@@ -127,6 +130,10 @@ func verifSerializeArrowSerializable(as ArrowSerializable) ([]byte, error) {
 
 var verifResultFail bool
 
+// verifPipeBatchSize, when set, decides the buffer size of every batch the ghost
+// handlers and states produce (by payload tag); default 8 (results) / 16 (stream batches).
+var verifPipeBatchSize func(tag int) int64
+
 func verifSerializeResult(schema *arrow.Schema, value interface{}) (arrow.RecordBatch, error) {
 	if verifResultFail {
 		return nil, errors.New("result does not fit the declared schema")
@@ -134,6 +141,9 @@ func verifSerializeResult(schema *arrow.Schema, value interface{}) (arrow.Record
 	tag, _ := value.(int)
 	b := verifNewBatch(schema, 1, tag, nil, nil)
 	b.size = 8
+	if verifPipeBatchSize != nil {
+		b.size = verifPipeBatchSize(tag)
+	}
 	return b, nil
 }
 
